@@ -59,15 +59,76 @@ func c16Client(c *fw.Ctx, cs c16Case) {
 	defer srv.Close()
 	var mu sync.Mutex
 	var issues []c16Issue
+	var heldSlow []func() // answers to the long-outstanding requests ("slow-…"), released by the next renewal
+	// like a conforming server the peer gives up a connection on which a sequence number is not the previous one
+	// plus one (both callbacks run on the connection's reader goroutine)
+	type seqState struct {
+		idx  int
+		last uint32
+		have bool
+		dead bool
+	}
+	seqs := map[*refpeer.SrvConn]*seqState{}
+	var seqMu sync.Mutex
+	var seqBreak string
+	inOrder := func(sc *refpeer.SrvConn) bool {
+		seqMu.Lock()
+		defer seqMu.Unlock()
+		st := seqs[sc]
+		if st == nil {
+			st = &seqState{}
+			seqs[sc] = st
+		}
+		for ; st.idx < len(sc.Log); st.idx++ {
+			o := sc.Log[st.idx]
+			if st.have && o.Seq != st.last+1 && !(st.last >= 0xffffffff-1024 && o.Seq < 1024) && !st.dead {
+				st.dead = true
+				seqBreak = fmt.Sprintf("%s%c chunk of request %d carries sequence number %d after %d", o.MsgType, o.ChunkType, o.ReqID, o.Seq, st.last)
+				sc.Conn.Close()
+			}
+			st.last, st.have = o.Seq, true
+		}
+		return !st.dead
+	}
 	srv.OnOpen = func(sc *refpeer.SrvConn, m *refpeer.Msg, renew bool) bool {
+		if !inOrder(sc) {
+			return false
+		}
 		mu.Lock()
 		issues = append(issues, c16Issue{time.Now(), renew})
+		slow := heldSlow
+		heldSlow = nil
 		mu.Unlock()
+		if renew && len(slow) > 0 {
+			// requests that have been outstanding since before this renewal are answered right after it
+			go func() {
+				time.Sleep(5 * time.Millisecond)
+				for _, f := range slow {
+					f()
+				}
+			}()
+		} else if len(slow) > 0 {
+			mu.Lock()
+			heldSlow = append(slow, heldSlow...)
+			mu.Unlock()
+		}
 		return true
 	}
 	srv.Handler = func(sc *refpeer.SrvConn, m *refpeer.Msg) {
+		if !inOrder(sc) {
+			return
+		}
 		if req, ok := m.Service.(*ua.ReadRequest); ok {
-			sc.Reply(m, &ua.ReadResponse{ResponseHeader: refpeer.RespHeader(req, ua.StatusOK), Results: []*ua.DataValue{{EncodingMask: ua.DataValueValue, Value: ua.MustVariant(nonceOf(req))}}})
+			reply := func() {
+				sc.Reply(m, &ua.ReadResponse{ResponseHeader: refpeer.RespHeader(req, ua.StatusOK), Results: []*ua.DataValue{{EncodingMask: ua.DataValueValue, Value: ua.MustVariant(nonceOf(req))}}})
+			}
+			if strings.HasPrefix(nonceOf(req), "slow-") {
+				mu.Lock()
+				heldSlow = append(heldSlow, reply)
+				mu.Unlock()
+				return
+			}
+			reply()
 		}
 	}
 	hs := &hookStats{hits: map[string]int64{}}
@@ -111,7 +172,7 @@ func c16Client(c *fw.Ctx, cs c16Case) {
 	}
 	stop := time.Now().Add(runFor)
 	var wg sync.WaitGroup
-	var okN, failN int64
+	var okN, failN, slowN int64
 	var firstErr atomic.Value
 	for g := 0; g < cs.Callers; g++ {
 		g := g
@@ -137,7 +198,30 @@ func c16Client(c *fw.Ctx, cs c16Case) {
 			}
 		}()
 	}
+	// one caller whose request stays outstanding across a renewal, like the Publish request of an idle subscription
+	wg.Add(1)
+	go func() {
+		defer wg.Done()
+		for k := 0; time.Now().Before(stop.Add(-L)); k++ {
+			nonce := fmt.Sprintf("slow-%d", k)
+			var got string
+			err := sc.SendRequestWithTimeout(ctx, &ua.ReadRequest{NodesToRead: []*ua.ReadValueID{{NodeID: ua.NewStringNodeID(1, nonce), AttributeID: ua.AttributeIDValue, DataEncoding: &ua.QualifiedName{}}}}, nil, 8*time.Second, func(v ua.Response) error {
+				if rr, ok := v.(*ua.ReadResponse); ok && len(rr.Results) == 1 && rr.Results[0].Value != nil {
+					got, _ = rr.Results[0].Value.Value().(string)
+				}
+				return nil
+			})
+			if err != nil || got != nonce {
+				atomic.AddInt64(&failN, 1)
+				firstErr.CompareAndSwap(nil, fmt.Sprintf("request %s, outstanding across a renewal (timeout 8 s): %v (got %q)", nonce, err, got))
+				return
+			}
+			atomic.AddInt64(&okN, 1)
+			atomic.AddInt64(&slowN, 1)
+		}
+	}()
 	wg.Wait()
+	c.Class("client:requests-outstanding-across-a-renewal", atomic.LoadInt64(&slowN))
 	mu.Lock()
 	iss := append([]c16Issue{}, issues...)
 	mu.Unlock()
@@ -147,6 +231,11 @@ func c16Client(c *fw.Ctx, cs c16Case) {
 	c.Class(fmt.Sprintf("client:lifetime-%dms", cs.LifetimeMS), 1)
 	if failN > 0 {
 		cs.Detail = fmt.Sprintf("%d of %d requests issued while tokens of %d ms were renewed failed, first: %v", failN, okN+failN, cs.LifetimeMS, firstErr.Load())
+		seqMu.Lock()
+		if seqBreak != "" {
+			cs.Detail += "; the peer had given up the connection: " + seqBreak
+		}
+		seqMu.Unlock()
 		c.Violation("c16:client-request-failed-around-renewal", cs.Detail, cs)
 		return
 	}
